@@ -7,3 +7,4 @@ pub mod ffi;
 pub mod proto;
 pub mod decode;
 pub mod tables;
+pub mod storage;
